@@ -15,9 +15,9 @@ import HexVerif.X.Syntax
     zero; monadic `-` is `0 - x`.
   * `CExpr`, `constVal`, `codeVal`, `runVal`: expression trees over constants and run-time leaves,
     the constant annotation `ConstProp` computes, the value of the code generated after `ConstProp` and
-    `OptimiseExpr` (folded nodes are materialised by `genConst`, rewritten nodes lose their
-    annotation and are always evaluated at run time), and the value when every operator is evaluated
-    at run time.
+    `OptimiseExpr` (a constant sub-tree is materialised by `genConst` of its folded value, except that
+    a `~= >= > <=` at the ROOT of a maximal constant sub-tree is rewritten and evaluated at run time
+    from its folded operands - see `codeVal`), and the value when every operator is evaluated at run time.
 -/
 namespace Hex.Xcmp
 open Hex.X (BinOp UnOp)
@@ -127,9 +127,14 @@ def rewritten : BinOp → Bool
   | .ne | .ge | .gr | .le => true
   | _ => false
 
-/-- Value of the code generated for the tree after `ConstProp` and `OptimiseExpr`: an annotated
-    node that survives rewriting is a `genConst` of its folded value; a rewritten relational node is
-    evaluated at run time from the code of its operands. -/
+/-- Value of the code generated for the tree after `ConstProp` and `OptimiseExpr`.
+    `OptimiseExpr` walks the tree with the default visitor, whose `accept` does not descend into a
+    node that carries a constant annotation (`if (!isConst() && shouldRecurseOp())`, xcmp.hpp 741-768):
+    of every maximal constant sub-tree only the ROOT is visited.  If that root is one of `~= >= > <=`
+    it is replaced by fresh, un-annotated nodes over its (still annotated, hence folded) operands and
+    is therefore evaluated at run time from the folded operand values; any other constant root, and
+    every constant node below a constant root, is materialised by `genConst` of its folded value.
+    Nodes without annotation are visited recursively and evaluated at run time. -/
 def codeVal (ρ : Nat → Word) : CExpr → Word
   | .num v => v
   | .leaf i => ρ i
@@ -138,10 +143,9 @@ def codeVal (ρ : Nat → Word) : CExpr → Word
     | some c => c
     | none => rtUn op (codeVal ρ e)
   | .bin op l r =>
-    if rewritten op then rtBin op (codeVal ρ l) (codeVal ρ r)
-    else match constVal (.bin op l r) with
-      | some c => c
-      | none => rtBin op (codeVal ρ l) (codeVal ρ r)
+    match constVal l, constVal r with
+    | some a, some b => if rewritten op then rtBin op a b else foldBin op a b
+    | _, _ => rtBin op (codeVal ρ l) (codeVal ρ r)
 
 /-- Value when every operator is evaluated by generated code at run time (the program in which all
     constants are supplied through variables). -/
